@@ -28,7 +28,7 @@ import (
 type c08wOp string
 
 var c08wAlphabet = []c08wOp{
-	"NewAddress", "NewChangeAddress", "TxDryRun", "TxCreate", "ImportDryRun", "ImportDryRunFail", "Import1", "Import2", "NewAddressImported",
+	"NewAddress", "NewChangeAddress", "TxDryRun", "TxCreate", "ImportDryRun", "ImportDryRunFail", "ImportDryRun0", "Import1", "Import2", "NewAddressImported",
 }
 
 func c08wXpub(n int) *hdkeychain.ExtendedKey {
@@ -202,6 +202,9 @@ func c08wExec(worker int, seq []c08wOp, fail func(sig, msg string)) (evals int, 
 				wallet.CoinSelectionLargest, op == "TxDryRun", wallet.WithCustomChangeScope(&scope))
 		case "ImportDryRun":
 			_, _, _, err = s.W.ImportAccountDryRun("imp-dry", c08wXpub(9), 0xAA, &witnessAddrType, 2)
+		case "ImportDryRun0":
+			// no addresses asked for
+			_, _, _, err = s.W.ImportAccountDryRun("imp-dry", c08wXpub(9), 0xAA, &witnessAddrType, 0)
 		case "ImportDryRunFail":
 			// fails inside the transaction, after the account was created
 			_, _, _, err = s.W.ImportAccountDryRun("imp-dry", c08wXpub(9), 0xAA, &witnessAddrType, waddrmgr.MaxAddressesPerAccount+1)
